@@ -35,7 +35,7 @@ def gen_queries(rng, g, n, depths, sort_pct=33):
     while len(queries) < n and tries < 10 * n:
         tries += 1
         q, ty = g.query(rng.pick(depths))
-        if qgen.has_or_absorption(q) or not ty:
+        if qgen.excluded(q) or not ty:
             continue
         if rng.below(100) < sort_pct:
             q, ks = qgen.top_sort(rng, q, ty)
